@@ -111,6 +111,14 @@ func (w *world) Ops() []seqx.Op {
 	if w.nops < 1 && !core.Quick() {
 		ops = append(ops, op{Kind: "burst", N: 65536})
 	}
+	// a downstream receiver asks for the newest hole: the delayed writer
+	// requests it upstream and counts it as expected
+	if len(w.holes()) > 0 {
+		ops = append(ops, op{Kind: "dnack"})
+		// the same inside a reporting interval of its own: report, request,
+		// report (the interval expects one packet and receives none)
+		ops = append(ops, op{Kind: "dnack-interval"})
+	}
 	ops = append(ops, op{Kind: "stats", N: 1}, op{Kind: "stats", N: 0})
 	ops = append(ops, op{Kind: "restart"}, op{Kind: "jump"})
 	return ops
@@ -270,6 +278,46 @@ func (w *world) Apply(x seqx.Op) *core.Violation {
 			}
 		}
 		w.gc()
+	case "dnack-interval":
+		if v := w.sample(true); v != nil {
+			return v
+		}
+		if v := w.Apply(op{Kind: "dnack"}); v != nil {
+			return v
+		}
+		w.nops--
+		return w.sample(true)
+	case "dnack":
+		h := w.holes()
+		if len(h) == 0 {
+			return nil
+		}
+		q := h[0]
+		buf := make([]byte, packetcache.BufSize)
+		w.w.UpRTCP.Take()
+		vrt.TaskPolicy = func(string) vrt.Policy { return vrt.Queue }
+		if n := w.w.Up.UpTrack().GetPacket(w.seq(q), buf, true); n != 0 {
+			return viol("missing-packet-in-cache", fmt.Sprintf("GetPacket returned %d bytes for seqno %d, which never arrived", n, w.seq(q)))
+		}
+		for len(vrt.Pending()) > 0 {
+			vrt.TakeTask(0).Fn()
+		}
+		for _, r := range w.w.UpRTCP.Take() {
+			if n, ok := r.(*rtcp.TransportLayerNack); ok {
+				for _, pair := range n.Nacks {
+					for _, sq := range pair.PacketList() {
+						d := int64(int16(sq - w.seq(w.highest)))
+						if d >= 0 {
+							return viol("nack-at-or-beyond-newest", fmt.Sprintf("downstream-triggered NACK for seqno %d, at or beyond the newest packet seen", sq))
+						}
+						if w.received[w.highest+d] {
+							return viol("nack-for-received-packet", fmt.Sprintf("downstream-triggered NACK for seqno %d, which had already been received", sq))
+						}
+					}
+				}
+			}
+		}
+		w.outcome = "dnack"
 	case "stats":
 		return w.sample(o.N == 1)
 	case "restart":
@@ -415,6 +463,19 @@ func nackWriterCheck(res *core.Result) core.Sub {
 							w.Up.UpTrack().GetPacket(start+uint16(c), buf, true)
 						}
 					}
+					// the first requested hole arrives before the delayed writer runs
+					// (odd masks only, so both orders are covered)
+					arrived := map[int]bool{}
+					if mask&1 == 1 {
+						for _, c := range asked {
+							if c >= 0 && c < 12 && isHole[c] {
+								pkt := media.VP8{Hdr: media.Hdr{Seq: start + uint16(c), TS: 1, Marker: true, PT: 96, SSRC: fwd.UpSSRC}, S: true, Body: []byte{1}}
+								w.Up.Cache().Store(start+uint16(c), 1, false, true, pkt.Bytes())
+								arrived[c] = true
+								break
+							}
+						}
+					}
 					w.UpRTCP.Take()
 					for len(vrt.Pending()) > 0 {
 						vrt.TakeTask(0).Fn()
@@ -438,6 +499,9 @@ func nackWriterCheck(res *core.Result) core.Sub {
 						s := start + uint16(c)
 						inCache := c >= 0 && c < 12 && !isHole[c]
 						switch {
+						case arrived[c] && sent[s] > 0:
+							res.Violate(core.Violation{Signature: "C06/nackwriter/received-packet-requested", What: fmt.Sprintf("seqno %d arrived after a downstream receiver asked for it and before the delayed NACK was written, and was requested from the publisher all the same", s)})
+						case arrived[c]:
 						case inCache && sent[s] > 0:
 							res.Violate(core.Violation{Signature: "C06/nackwriter/cached-packet-requested", What: fmt.Sprintf("a downstream NACK for seqno %d, which is in the cache, was forwarded to the publisher", s)})
 						case c < cut && sent[s] > 0:
@@ -464,7 +528,7 @@ func nackWriterCheck(res *core.Result) core.Sub {
 		}
 	}
 	sub.States, sub.Transitions, sub.Outcomes = sub.Executions, sub.Executions, outc.N()
-	sub.Bound = "start seqnos(2) x hole sets(5) x keyframe positions(3) x all non-empty subsets of 9 requested positions"
+	sub.Bound = "start seqnos(2) x hole sets(5) x keyframe positions(3) x all non-empty subsets of 9 requested positions (odd subsets: the first requested hole arrives before the delayed writer runs)"
 	sub.Samples = []any{"cache 100..111 with holes {3,7}, keyframe at 106, downstream NACKs for {101,103,107,112}"}
 	return sub
 }
